@@ -119,7 +119,7 @@ pub const INTERPOSED: &[&str] = &[
     "waitid", "kill", "killpg", "execve", "execv", "execvp", "execvpe", "fexecve", "chdir", "fchdir", "setuid", "setgid", "setpgid",
     "setsid", "pthread_sigmask", "sigprocmask", "signal", "sigaction", "clock_gettime", "nanosleep", "clock_nanosleep", "_exit",
     "open64", "open", "openat", "openat64", "posix_spawn", "posix_spawnp", "close_range", "setgroups", "setresuid", "setresgid",
-    "setreuid", "setregid", "seteuid", "setegid", "syscall", "prctl",
+    "setreuid", "setregid", "seteuid", "setegid", "syscall", "prctl", "sigpending",
 ];
 
 pub unsafe fn real_clock_gettime(id: libc::clockid_t, ts: *mut libc::timespec) -> c_int {
@@ -264,6 +264,13 @@ pub unsafe extern "C" fn fork() -> pid_t {
         if on {
             ilog::IN_CHILD.store(true, std::sync::atomic::Ordering::SeqCst);
             log(k::FORK, [0; 4], 0, 0, 0);
+            // a signal reaches the new process at once (somebody signals the group, a timer fires): it is sent here, by
+            // the child to itself, before the library's code in the child has run at all
+            let sig = CHILD_SELF_SIGNAL.load(std::sync::atomic::Ordering::SeqCst);
+            if sig != 0 {
+                let me = crate::rsys!(libc::SYS_getpid) as i32;
+                crate::rsys!(libc::SYS_kill, me, sig);
+            }
         }
     } else if on {
         let e = errno();
@@ -614,6 +621,24 @@ pub unsafe extern "C" fn kill(pid: pid_t, sig: c_int) -> c_int {
 
 /// signals to process sets that monitored code asked for and the monitor did not carry out
 pub static REFUSED_SET_KILLS: std::sync::atomic::AtomicUsize = std::sync::atomic::AtomicUsize::new(0);
+
+/// a signal that every forked child of monitored code sends to itself as its first action (0 = none)
+pub static CHILD_SELF_SIGNAL: std::sync::atomic::AtomicI32 = std::sync::atomic::AtomicI32::new(0);
+
+def_real!(r_sigpending, "sigpending", fn(*mut libc::sigset_t) -> c_int);
+
+/// sigpending(): carried out and logged
+#[no_mangle]
+pub unsafe extern "C" fn sigpending(set: *mut libc::sigset_t) -> c_int {
+    let on = ilog::active();
+    let r = r_sigpending()(set);
+    if on {
+        let e = errno();
+        log(k::SIGMASK, [-1, 0, 0, 0], r as i64, if r < 0 { e } else { 0 }, 0);
+        set_errno(e);
+    }
+    r
+}
 
 /// prctl(): carried out as asked and logged (what a child arranges for itself before exec - a parent-death signal,
 /// say - has effects that the oracles then see on the child)
